@@ -4,3 +4,4 @@ import LettreVerif.Props.C03
 #print axioms LV.C03.marker_last
 #print axioms LV.C03.frames_assoc
 #print axioms LV.C03.stuffing_bounds
+#print axioms LV.C03.marker_once
